@@ -12,6 +12,7 @@ from sfa.model import call_name
 from sfa.model import kwarg
 from sfa.model import norm
 from sfa.model import walk_local
+from sfa import roles
 from sfa.report import Ctx
 from sfa.rules import pair
 
@@ -31,31 +32,39 @@ def extraction_pairs(ctx: Ctx) -> None:
             if pv['data'].kind in ('unk', 'fresh') and m in ('_extract', 'dropna'):
                 continue   # dimensionality-reducing returns of Frame._extract are covered by select-reduce below
             pair.check_site(ctx, R, f, c, kind, expect_name=(m != 'dropna' or True) and pv['name'].text != '<absent>')
-    # Frame._extract: reductions to Series take the labels of the non-reduced axis
+    # Frame._extract: reductions to Series take the labels of the axis that survives and are named by the label selected on the other
     f = prog.method('Frame', '_extract', inherited=False)
+    ex = roles.Expander(f.node)
+    row_p, col_p = (f.params[1], f.params[2]) if len(f.params) >= 3 else ('row_key', 'column_key')
+    n_red = 0
     for c in [n for n in walk_local(f.node) if isinstance(n, ast.Call) and norm(n.func) == 'Series']:
-        idx = norm(kwarg(c, 'index'))
-        nm = norm(kwarg(c, 'name'))
-        key = f'_extract:Series(index={idx}, name={nm})'
-        good = (idx in ('immutable_index_filter(columns)',) and nm == 'name_row') or (idx == 'index' and nm == 'name_column')
-        (ctx.ok if good else ctx.bad)(R, f, c, f'row reduction labelled by columns / named by the row label (and vice versa): index={idx}, name={nm}' if good else
-                                      f'a reduced selection is labelled index={idx} with name={nm}: the axis that survives and the label that becomes the name are crossed', key=key)
-    # name_row / name_column come from the key of their own axis
-    for var, base, keyname in (('name_row', 'self._index', 'row_key'), ('name_column', 'self._columns', 'column_key')):
-        defs = [a for a in walk_local(f.node) if isinstance(a, ast.Assign) and norm(a.targets[0]) == var and not (isinstance(a.value, ast.Constant))
-                and not norm(a.value).startswith('tuple(')]
-        good = bool(defs) and all(norm(a.value) == f'{base}.values[{keyname}]' for a in defs)
-        (ctx.ok if good else ctx.bad)(R, f, defs[0] if defs else f.node, f'{var} = {base}.values[{keyname}]' if good else
-                                      f'{var} is not read from {base} with {keyname}', key=f'_extract:{var}')
-    # Bus / IndexHierarchy / Index
-    for cname, m, data_pat, label_pat in (
-            ('Bus', '_extract_iloc', 'self._series.values[key]', 'self._series._index.iloc[key]'),
-            ('Bus', '_extract_loc', 'self._series.values[iloc_key]', 'self._series._index.iloc[iloc_key]')):
+        n_red += 1
+        idx = ex.expand(kwarg(c, 'index'))
+        nm = ex.expand(kwarg(c, 'name'))
+        key = f'_extract:Series#{n_red}'
+        by_columns = all('self._columns' in t and 'self._index' not in t for t in idx)
+        by_index = all('self._index' in t and 'self._columns' not in t for t in idx)
+        good = (by_columns and nm == {f'self._index.values[{row_p}]'}) or (by_index and nm == {f'self._columns.values[{col_p}]'})
+        (ctx.ok if good else ctx.bad)(R, f, c, f'reduction labelled by {"columns" if by_columns else "index"} and named by the label selected on the other axis' if good else
+                                      f'a reduced selection is labelled index={sorted(idx)} with name={sorted(nm)}: the axis that survives and the label that becomes the name are crossed', key=key)
+    ctx.require(n_red >= 6, 'Series reductions in Frame._extract')
+    # Bus: frames and labels of the derived Bus are selected with one and the same positional key
+    for cname, m, keytext in (('Bus', '_extract_iloc', 'key'), ('Bus', '_extract_loc', 'self._series._index._loc_to_iloc(key)')):
         f = prog.method(cname, m, inherited=False)
-        src = norm(f.node)
-        good = data_pat in src and label_pat in src
-        (ctx.ok if good else ctx.bad)(R, f, f.node, f'{data_pat} paired with {label_pat}' if good else
-                                      f'{cname}.{m}: frames and labels are not selected by the same key', key=f'{cname}.{m}')
+        ex = roles.Expander(f.node)
+        ctor = [c for c in walk_local(f.node) if isinstance(c, ast.Call) and call_name(c) == 'Series' and c.args]
+        problems = []
+        if not ctor:
+            problems.append('no Series is built for the derived Bus')
+        for c in ctor:
+            data = ex.expand(c.args[0])
+            labels = ex.expand(kwarg(c, 'index'))
+            if data != {f'self._series.values[{keytext}]'}:
+                problems.append(f'frames are taken as {sorted(data)}')
+            if labels != {f'self._series._index.iloc[{keytext}]'}:
+                problems.append(f'labels are taken as {sorted(labels)}')
+        (ctx.bad if problems else ctx.ok)(R, f, f.node, '; '.join(problems) + ': frames and labels are not selected by the same key' if problems else
+                                          f'self._series.values[k] paired with self._series._index.iloc[k], k = {keytext}', key=f'{cname}.{m}')
 
 
 def loc_delegates(ctx: Ctx) -> None:
@@ -80,23 +89,34 @@ def loc_delegates(ctx: Ctx) -> None:
         got = norm(rets[-1].value) if rets else ''
         (ctx.ok if got == want else ctx.unk if 'loc_to_iloc' in got or '_extract' in got else ctx.bad)(
             R, f, rets[-1] if rets else f.node, f'returns {got}', key=f'{cname}.{m}')
-    # Frame._compound_loc_to_iloc: each axis key goes through its own axis
+    # Frame._compound_loc_to_iloc: each axis key goes through its own axis (decided on what the returned pair is made from)
     f = prog.method('Frame', '_compound_loc_to_iloc', inherited=False)
-    src = [norm(a) for a in walk_local(f.node) if isinstance(a, ast.Assign)]
-    good = 'iloc_column_key = self._columns._loc_to_iloc(loc_column_key)' in src and 'iloc_row_key = self._index._loc_to_iloc(loc_row_key)' in src \
-        and 'loc_row_key, loc_column_key = key' in src
-    ret = [norm(n.value) for n in walk_local(f.node) if isinstance(n, ast.Return)]
-    good = good and ret == ['(iloc_row_key, iloc_column_key)']
+    ex = roles.Expander(f.node)
+    rets = [n for n in walk_local(f.node) if isinstance(n, ast.Return)]
+    k = f.params[1] if len(f.params) > 1 else 'key'
+    good = bool(rets)
+    for r in rets:
+        if not (isinstance(r.value, ast.Tuple) and len(r.value.elts) == 2):
+            good = False
+            continue
+        row, col = ex.expand(r.value.elts[0]), ex.expand(r.value.elts[1])
+        good = good and row and row <= {f'self._index._loc_to_iloc({k}[0])', f'self._index._loc_to_iloc({k})'} \
+            and col and col <= {f'self._columns._loc_to_iloc({k}[1])', 'None'} and f'self._columns._loc_to_iloc({k}[1])' in col
     (ctx.ok if good else ctx.bad)(R, f, f.node, 'row key -> index, column key -> columns, returned in (row, column) order' if good else
                                   'the compound key is not translated axis by axis in (row, column) order', key='Frame._compound_loc_to_iloc')
     g = prog.method('Frame', '_compound_loc_to_getitem_iloc', inherited=False)
-    src = norm(g.node)
-    good = 'iloc_column_key = self._columns._loc_to_iloc(key)' in src and 'return (None, iloc_column_key)' in src
+    ex = roles.Expander(g.node)
+    rets = [n for n in walk_local(g.node) if isinstance(n, ast.Return)]
+    k = g.params[1] if len(g.params) > 1 else 'key'
+    good = bool(rets) and all(ex.expand(r.value) == {f'(None, self._columns._loc_to_iloc({k}))'} for r in rets)
     (ctx.ok if good else ctx.bad)(R, g, g.node, '__getitem__ keys select columns' if good else '__getitem__ key translation changed', key='Frame._compound_loc_to_getitem_iloc')
-    s = prog.method('Series', '_extract_loc', inherited=False)
-    src = norm(s.node)
-    good = 'iloc_key = self._index._loc_to_iloc(key)' in src
-    (ctx.ok if good else ctx.bad)(R, s, s.node, 'Series._extract_loc translates through its index', key='Series._extract_loc')
+    sm = prog.method('Series', '_extract_loc', inherited=False)
+    ex = roles.Expander(sm.node)
+    k = sm.params[1] if len(sm.params) > 1 else 'key'
+    subs = [x for x in walk_local(sm.node) if isinstance(x, ast.Subscript) and norm(x.value) in ('self.values', 'self._index.iloc')]
+    good = len(subs) >= 2 and all(ex.expand(x.slice) == {f'self._index._loc_to_iloc({k})'} for x in subs)
+    (ctx.ok if good else ctx.bad)(R, sm, sm.node, 'Series._extract_loc subscripts values and labels with its index\'s translation of the key' if good else
+                                  'Series._extract_loc does not select values and labels at the positions its index gives for the key', key='Series._extract_loc')
 
 
 def inclusive_stop(ctx: Ctx) -> None:
@@ -106,6 +126,11 @@ def inclusive_stop(ctx: Ctx) -> None:
              'no-map fast paths of Index route slices through it', floor=5)
     prog = ctx.prog
     f = prog.func('index.LocMap.map_slice_args')
+    # locals by role: the slice field is the target of the loop over SLICE_ATTRS, the position is what the label_to_pos callable (first
+    # parameter) returns into
+    fld = [lp.target.id for lp in walk_local(f.node) if isinstance(lp, ast.For) and norm(lp.iter) == 'SLICE_ATTRS' and isinstance(lp.target, ast.Name)]
+    posn = roles.assigned_from(f.node, lambda v: isinstance(v, ast.Call) and isinstance(v.func, ast.Name) and f.params and v.func.id == f.params[0])
+    fnode = roles.canonical(f.node, {'field': fld[0] if fld else None, 'pos': posn})
 
     class C(flow.Client):
         '''state: frozenset of facts; 'plus1' = pos already includes the +1 for the stop.'''
@@ -144,22 +169,34 @@ def inclusive_stop(ctx: Ctx) -> None:
                 self.yields.append((node, 'plus1' in st))
             return st
     c = C()
-    flow.Engine(c).run(f.body, frozenset())
+    flow.Engine(c).run(fnode.body, frozenset())
     ctx.require(len(c.yields) >= 2, 'map_slice_args yields positions on the stop projection')
     seen = set()
     for node, ok in c.yields:
         if (node.lineno, ok) in seen:
             continue
         seen.add((node.lineno, ok))
-        key = f'yield@{norm(_enclosing_branch(f, node))[:50]}'
+        key = f'yield@{norm(_enclosing_branch(fnode, node))[:50]}'
         (ctx.ok if ok else ctx.bad)(R, f, node, 'for the stop field the yielded position includes + 1 on every path' if ok else
                                     'on some path the stop position is yielded without + 1: a label slice excludes its stop label', key=key)
     g = prog.func('util.slice_to_inclusive_slice')
     rets = [n for n in walk_local(g.node) if isinstance(n, ast.Return)]
-    stops = [a for a in walk_local(g.node) if isinstance(a, ast.Assign) and norm(a.targets[0]) == 'stop']
-    good = bool(stops) and all(isinstance(a.value, ast.IfExp) and '+ 1' in norm(a.value.orelse) and 'is None' in norm(a.value.test) for a in stops) \
-        and any(norm(r.value).startswith('slice(start, stop') for r in rets)
-    (ctx.ok if good else ctx.bad)(R, g, stops[0] if stops else g.node, 'stop = None if key.stop is None else key.stop + 1 (+ offset)' if good else
+    inl = roles.Inliner(g.node)
+    kparam = g.params[0] if g.params else 'key'
+    good = bool(rets)
+    for r in rets:
+        v = r.value
+        if not (isinstance(v, ast.Call) and call_name(v) == 'slice' and len(v.args) >= 2):
+            good = False
+            continue
+        stop = inl.expr(v.args[1])
+        # None if key.stop is None else key.stop + 1 (+ offset)
+        ok = isinstance(stop, ast.IfExp) and norm(stop.test) in (f'{kparam}.stop is None',) and isinstance(stop.body, ast.Constant) and stop.body.value is None \
+            and _adds_one(stop.orelse, f'{kparam}.stop')
+        ok = ok or (isinstance(stop, ast.IfExp) and norm(stop.test) in (f'{kparam}.stop is not None',) and isinstance(stop.orelse, ast.Constant) and stop.orelse.value is None
+                    and _adds_one(stop.body, f'{kparam}.stop'))
+        good = good and ok
+    (ctx.ok if good else ctx.bad)(R, g, rets[0] if rets else g.node, 'stop = None if key.stop is None else key.stop + 1 (+ offset)' if good else
                                   'slice_to_inclusive_slice no longer adds one to the stop', key='slice_to_inclusive_slice')
     # fast paths
     for cname, m in (('Index', '_loc_to_iloc'), ('Index', 'loc_to_iloc')):
@@ -172,9 +209,26 @@ def inclusive_stop(ctx: Ctx) -> None:
                                            'a slice key on the no-map (auto-integer) path is used as is: its stop label is excluded', key=f'{cname}.{m}:slice-branch@{b.lineno - h.node.lineno > 40}')
 
 
-def _enclosing_branch(f: FuncInfo, node: ast.AST) -> ast.AST:
+def _adds_one(e: ast.expr, base: str) -> bool:
+    '''e is a sum (any association / order) whose terms include `base` and the literal 1, and no subtraction.'''
+    terms: tp.List[ast.expr] = []
+
+    def flat(x: ast.expr) -> bool:
+        if isinstance(x, ast.BinOp) and isinstance(x.op, ast.Add):
+            return flat(x.left) and flat(x.right)
+        if isinstance(x, ast.BinOp):
+            return False
+        terms.append(x)
+        return True
+    if not flat(e):
+        return False
+    ones = [t for t in terms if isinstance(t, ast.Constant) and t.value == 1]
+    return len(ones) == 1 and any(norm(t) == base for t in terms) and not any(isinstance(t, ast.UnaryOp) for t in terms)
+
+
+def _enclosing_branch(root: ast.AST, node: ast.AST) -> ast.AST:
     best = node
-    for n in ast.walk(f.node):
+    for n in ast.walk(root):
         if isinstance(n, ast.If) and any(x is node for s in n.body for x in ast.walk(s)):
             best = n.test
     return best
@@ -207,9 +261,12 @@ def absent_label_raises(ctx: Ctx) -> None:
     (ctx.ok if n_direct >= 4 else ctx.bad)(R, f, f.node, f'{n_direct} direct map subscripts (raise KeyError on an absent label)', key='direct-subscripts')
     # map_slice_args: a None position raises LocInvalid
     m = prog.func('index.LocMap.map_slice_args')
-    checks = [n for n in walk_local(m.node) if isinstance(n, ast.If) and norm(n.test) == 'pos is None'
+    lookup = m.params[0] if m.params else 'label_to_pos'
+    posnames = set(roles.assigned_from_all(m.node, lambda v: isinstance(v, ast.Call) and isinstance(v.func, ast.Name) and v.func.id == lookup))
+    checks = [n for n in walk_local(m.node) if isinstance(n, ast.If) and isinstance(n.test, ast.Compare) and len(n.test.ops) == 1 and isinstance(n.test.ops[0], ast.Is)
+              and isinstance(n.test.left, ast.Name) and n.test.left.id in posnames and isinstance(n.test.comparators[0], ast.Constant) and n.test.comparators[0].value is None
               and any(isinstance(x, ast.Raise) and x.exc is not None and ('LocInvalid' in norm(x.exc) or 'LocEmpty' in norm(x.exc)) for x in ast.walk(n))]
-    n_lookups = len([c for c in walk_local(m.node) if isinstance(c, ast.Call) and call_name(c) == 'label_to_pos'])
+    n_lookups = len([c for c in walk_local(m.node) if isinstance(c, ast.Call) and call_name(c) == lookup])
     # one of the lookups (coarser datetime start) falls back to a scan, which raises LocEmpty when nothing matches
     (ctx.ok if len(checks) >= n_lookups >= 2 else ctx.bad)(R, m, m.node, f'{n_lookups} lookups, {len(checks)} `pos is None` guards that raise' if len(checks) >= n_lookups
                                                            else f'{n_lookups} label lookups but only {len(checks)} `pos is None -> raise` guards: an absent slice bound yields None', key='slice-none-raises')
@@ -243,10 +300,31 @@ def bloc_coordinates(ctx: Ctx) -> None:
     w = prog.method('TypeBlocks', 'extract_bloc', inherited=False)
     r = prog.method('TypeBlocks', '_assign_from_bloc_by_coordinate', inherited=False)
 
+    def canon(f: FuncInfo) -> ast.AST:
+        # locals by role: the block is the target of the loop over self._blocks, the running offset is the local set to 0 before that
+        # loop and advanced in it, the block end is the local assigned `offset + 1`
+        rl: tp.Dict[str, tp.Optional[str]] = {}
+        for holder in ast.walk(f.node):
+            for field in ('body', 'orelse'):
+                stmts = getattr(holder, field, None)
+                if not isinstance(stmts, list):
+                    continue
+                for i, lp in enumerate(stmts):
+                    if isinstance(lp, ast.For) and norm(lp.iter) == 'self._blocks' and isinstance(lp.target, ast.Name):
+                        cs = roles.loop_counter(lp, stmts[:i])
+                        if cs:
+                            rl['t_start'] = cs[0]
+                            rl['block'] = lp.target.id
+                            rl['t_end'] = roles.assigned_from(lp, lambda v: isinstance(v, ast.BinOp) and isinstance(v.op, ast.Add) and norm(v.left) == cs[0]
+                                                              and isinstance(v.right, ast.Constant) and v.right.value == 1)
+        return roles.canonical(f.node, rl)
+    wn, rn = canon(w), canon(r)
+    nodes = {id(w): wn, id(r): rn}
+
     def coord_forms(f: FuncInfo) -> tp.Set[str]:
         # classes of coordinate pairs, independent of variable names: (x, t_start) and (x, t_start + y)
         out = set()
-        for n in ast.walk(f.node):
+        for n in ast.walk(nodes[id(f)]):
             if isinstance(n, ast.Tuple) and len(n.elts) == 2 and 't_start' in norm(n.elts[1]) and isinstance(n.ctx, ast.Load):
                 second = n.elts[1]
                 if norm(second) == 't_start':
@@ -265,11 +343,12 @@ def bloc_coordinates(ctx: Ctx) -> None:
     (ctx.ok if fr == want else ctx.bad)(R, r, r.node, f'coordinate forms read: {sorted(fr)}' if fr == want else
                                         f'_assign_from_bloc_by_coordinate looks up {sorted(fr)}; expected {sorted(want)}', key='reader-forms')
     for f in (w, r):
-        adv = [norm(a) for a in walk_local(f.node) if isinstance(a, ast.Assign) and norm(a.targets[0]) == 't_start']
-        ends = [norm(a) for a in walk_local(f.node) if isinstance(a, ast.Assign) and norm(a.targets[0]) == 't_end']
+        fn = nodes[id(f)]
+        adv = [norm(a) for a in walk_local(fn) if isinstance(a, ast.Assign) and norm(a.targets[0]) == 't_start']
+        ends = [norm(a) for a in walk_local(fn) if isinstance(a, ast.Assign) and norm(a.targets[0]) == 't_end']
         good = 't_start = t_end' in adv and 't_start = 0' in adv and 't_end = t_start + 1' in ends and 't_end = t_start + block.shape[1]' in ends
         # every path through the loop body that continues must advance the offset
-        loops = [n for n in walk_local(f.node) if isinstance(n, ast.For) and norm(n.iter) == 'self._blocks']
+        loops = [n for n in walk_local(fn) if isinstance(n, ast.For) and norm(n.iter) == 'self._blocks']
         cont_ok = True
         for lp in loops:
             for c in [x for x in ast.walk(lp) if isinstance(x, ast.Continue)]:
